@@ -77,6 +77,9 @@ def _cov_summary(prop):
             os.makedirs(os.path.join(ROOT, 'build', 'cov'), exist_ok=True)
             with open(os.path.join(ROOT, 'build', 'cov', prop + '.json'), 'w') as f:
                 json.dump(covmon.dump(), f)
+            if os.environ.get('VERIF_ARGCOV'):
+                with open(os.path.join(ROOT, 'build', 'cov', prop + '.args'), 'w') as f:
+                    json.dump(covmon.dump_args(), f)
         return s if s is not None else 'not measured (interpreter without sys.monitoring)'
     except Exception as e:  # noqa
         return 'not measured: %s' % e
